@@ -53,7 +53,7 @@ def wrap(expr):
 
 def checks(quick, rng):
     out = []
-    strs = all_strings(3)
+    strs = all_strings(3 if quick else 5)
     for s in strs:
         n = len(s.encode())
         idx = [str(i) for i in range(-n - 1, n + 2)]
@@ -217,10 +217,10 @@ def run(tier):
     ck.coverage["programs_discarded_by_model"] = discarded
     if discarded:
         ck.inconclusive.append("%d batches were discarded by the model" % discarded)
-    return ck.finish("every string of length <= 3 over {a, é, €, 😀} x every byte index / special index x index and "
+    return ck.finish("every string of length <= %d over {a, é, €, 😀} x every byte index / special index x index and "
                      "slice, sequences of length <= 3 (values and freshness of slices), every string method over substring/index pools, String.from_* over "
                      "byte and code-point lists, escape forms; batched 400 checks per program, each compared with the "
-                     "byte-level model; non-trivial = distinct check expression",
+                     "byte-level model; non-trivial = distinct check expression" % (3 if quick else 5),
                      exhaustive=not quick)
 
 
